@@ -30,7 +30,7 @@ one() {
     for p in $own $(echo $want | tr ' ' '\n' | sort -u | grep -v "^$own\$"); do
       echo " $claimed " | grep -q " $p " || continue
       out=$(cd $S/verif && bin/govc check -p $p -repo $S/repo -verif $S/verif 2>&1); rc=$?
-      if [ $rc -ne 0 ]; then ob=$(echo "$out" | grep -m2 -o 'obligation=[^ ]*' | sed 's/obligation=//' | tr '\n' ' '); caught="$caught $p[$ob]"; fi
+      if [ $rc -ne 0 ]; then ob=$(echo "$out" | grep -m8 -o 'obligation=[^ ]*' | sed 's/obligation=//' | tr '\n' ' '); caught="$caught $p[$ob]"; fi
     done
     echo "$name: caught by:${caught:- NONE}"
   fi
